@@ -97,6 +97,26 @@ D = {
  "C18e": ("INT 21h reads through a persistent BufReader that swallows all available input", "console read followed by a prompt (int 3 / stepping) and further reads"),
  "C19e": ("undefined labels sorted by position only", "two undefined labels produced by one macro use (equal positions): report order follows hash order"),
  "C20e": ("one shared console line buffer: the prompt leaves `n` in it, INT 21h appends", "a prompt answered before a later INT 21h AH=1 / AH=0Ah read"),
+ "C01f": ("data-label operands resolved through a signed 16-bit displacement helper", "data label at offset 0x8000 or more (32 KiB of data in front of it)"),
+ "C02f": ("word shift/rotate on a data label writes back through a two-byte slice (no wrap at 1 MiB)", "word label whose low byte is physical 0xFFFFF"),
+ "C03f": ("divide-error report takes the instruction index through the 16-bit IP register", "divide error at instruction index 65536 or more: the message cites another line (a C16 matter; the INT 0 outcome itself is unaffected)"),
+ "C04f": ("same idea as C01f (label offset sign-extended)", "data label at offset 0x8000 or more"),
+ "C05f": ("same idea as C01f, inlined", "data label at offset 0x8000 or more"),
+ "C06f": ("`Label.map` narrowed to u16", "jump / loop target (or `start`) at instruction index 65536 or more"),
+ "C07f": ("word string element: high byte at `lo + 1` without the wrap at 1 MiB", "word element whose low byte is physical 0xFFFFF (e.g. the 0x4000th iteration of a long REP)"),
+ "C08f": ("`Label::new` masks the map to 16 bits", "code label defined after 65536 or more emitted instructions"),
+ "C09f": ("INT 10h/13h prints strings longer than 1024 characters through one slice", "CX > 1024 and the string crossing the top of memory"),
+ "C10f": ("CALL refuses a call stack deeper than 32768 (reported as a parse error = driver's Internal Error path)", "recursion at least 32769 levels deep"),
+ "C11f": ("OFFSET in a byte position: range check replaced by a cast", "OFFSET of a label at offset 256 or more where a byte constant is expected"),
+ "C12f": ("driver numbers the data items with `(0..=u16::MAX).zip(..)`", "more than 65536 data directives"),
+ "C13f": ("macro placeholder index passed as u8", "macro with 257 or more parameters using one with index 256 or more"),
+ "C14f": ("undefined-label set pruned with the wrong polarity once it holds 4096 entries", "more than 4096 forward references, an undefined one among the first 4096"),
+ "C15f": ("get_line switches to a binary search above 1024 lines (newline position belongs to the next line)", "source of more than 1024 lines that stops in the middle of a construct directly before a newline"),
+ "C16f": ("same binary search, threshold 256 lines", "more than 256 lines and a message citing a procedure's implied return while stepping"),
+ "C17f": ("prompt reads at most 4096 bytes of a line", "prompt command longer than 4096 bytes (zero-padded number)"),
+ "C18f": ("INT 21h reads at most 4096 bytes of a line", "input line of 4096 bytes or more followed by another console read"),
+ "C19f": ("above 256 forward references the first undefined label is chosen by position only", "more than 256 forward references and two undefined labels from one macro use"),
+ "C20f": ("prompt reads at most 8192 bytes of a line", "prompt line longer than 8191 bytes: one line becomes two commands"),
 }
 rows = []
 for d in sorted(glob.glob(os.path.join(ROOT, "seeded", "*"))):
